@@ -69,7 +69,7 @@ class Gen:
         return [l for l in h if l]
 
 def run(ck):
-    ck.level = "translation_validation"
+    ck.level = "proof"
     ck.cov["rule"] = ("histories 'new <size>' + up to 300 write/read/peek/skip/reset/space/begin-amend*-commit|abandon calls; sizes 1..130, "
                       "2^k and 2^k±1 up to 2^16 (thorough: 2^20); request sizes cluster at exactly-fits / one-too-many / 0 / beyond capacity; "
                       "compared per call: return value, bytes delivered, both heads, the open transaction; non-trivial = distinct history")
